@@ -25,6 +25,13 @@ CONFIGS = {
 MODULE_SYMS = {"modfn": "code", "moddata": "data", "modproxy": "proxy"}
 
 
+def module_syms(cfg):
+    """the symbols of the target module: the three above and one whose name looks like a temporary label"""
+    d = dict(MODULE_SYMS)
+    d[temp_prefix(cfg) + "mod"] = "code"
+    return d
+
+
 def family(cfg):
     isa = CONFIGS[cfg]["isa"]
     return {"X64": "x64", "IA32": "ia32", "ARM64": "arm64", "MIPS32": "mips"}[isa]
@@ -109,6 +116,10 @@ def render_token(tok, cfg):
             if fam == "x64":
                 return ("call qword ptr [rip + %s]" % tok["to"]) if intel else ("call *%s(%%rip)" % tok["to"])
             return "call *%s" % tok["to"]
+        if t == "ijmpm":
+            if fam == "x64":
+                return ("jmp qword ptr [rip + %s]" % tok["to"]) if intel else ("jmp *%s(%%rip)" % tok["to"])
+            return "jmp *%s" % tok["to"]
         if t == "ref":
             a = tok.get("addend", 0)
             if fam == "x64" and tok.get("imm") is not None:
@@ -139,7 +150,7 @@ def render_token(tok, cfg):
             if tok.get("got"):
                 return "ldr x0, [x0, :got_lo12:%s]" % tok["to"]
             if tok.get("lo12"):
-                return "add x0, x0, :lo12:%s" % tok["to"]
+                return "add x0, x0, :lo12:%s" % _ref(tok["to"], tok.get("addend", 0))
             if tok.get("lit"):
                 return "ldr x1, " + _ref(tok["to"], tok.get("addend", 0))
             return "adrp x0, " + _ref(tok["to"], tok.get("addend", 0))
@@ -161,8 +172,8 @@ def render_token(tok, cfg):
             return "jalr $25"
         if t == "ref":
             if tok.get("lo12"):
-                return "addiu $8, $8, %%lo(%s)" % tok["to"]
-            return "lui $8, %%hi(%s)" % tok["to"]
+                return "addiu $8, $8, %%lo(%s)" % _ref(tok["to"], tok.get("addend", 0))
+            return "lui $8, %%hi(%s)" % _ref(tok["to"], tok.get("addend", 0))
     return None
 
 
@@ -178,14 +189,14 @@ def render(tokens, cfg):
 
 MNEMONICS = {
     "x86": {"nop": {"nop"}, "movi": {"mov"}, "push": {"push"}, "add": {"add"}, "jmp": {"jmp"}, "jcc": {"jne"}, "call": {"call"},
-            "ret": {"ret"}, "ijmp": {"jmp"}, "icall": {"call"}, "icallm": {"call"}, "ref": {"lea", "mov"}},
+            "ret": {"ret"}, "ijmp": {"jmp"}, "icall": {"call"}, "icallm": {"call"}, "ijmpm": {"jmp"}, "ref": {"lea", "mov"}},
     "arm64": {"nop": {"nop"}, "movi": {"mov", "movz"}, "push": {"str"}, "add": {"add"}, "jmp": {"b"}, "jcc": {"b.ne"}, "call": {"bl"},
               "ret": {"ret"}, "ijmp": {"br"}, "icall": {"blr"}, "ref": {"adrp", "add", "ldr"}},
     "mips": {"nop": {"nop"}, "movi": {"addiu"}, "push": {"sw"}, "add": {"addu"}, "jmp": {"j"}, "b": {"b", "beq", "beqz"}, "jcc": {"beq"},
              "call": {"jal"}, "ijmp": {"jr"}, "icall": {"jalr"}, "ref": {"lui", "addiu"}},
 }
 
-CODE_TOKENS = ("op", "jmp", "b", "jcc", "call", "ret", "ijmp", "icall", "icallm", "ref")
+CODE_TOKENS = ("op", "jmp", "b", "jcc", "call", "ret", "ijmp", "icall", "icallm", "ijmpm", "ref")
 
 
 def token_kind(tok):
@@ -199,7 +210,7 @@ def token_kind(tok):
         return "call", False, tok["to"]
     if t == "ret":
         return "ret", False, None
-    if t == "ijmp":
+    if t in ("ijmp", "ijmpm"):
         return "jmp", True, None
     if t in ("icall", "icallm"):
         return "call", True, None
@@ -394,6 +405,8 @@ def build_module(cfg):
     data = add_data_block(bi, b"\x00" * 8)
     proxy = add_proxy_block(m)
     syms = {"modfn": add_symbol(m, "modfn", code), "moddata": add_symbol(m, "moddata", data), "modproxy": add_symbol(m, "modproxy", proxy)}
+    code2 = add_code_block(bi, b"\x00" * 4)
+    syms[temp_prefix(cfg) + "mod"] = add_symbol(m, temp_prefix(cfg) + "mod", code2)
     if c["dyn"]:
         gtirb.Section(name=".dynamic", module=m)
     AX.binary_type.set(m, list(c["bt"]))
@@ -566,7 +579,7 @@ def model_request(cfg, real, allow_undef, triv):
         if me is None:
             return None
         chunks.append(me)
-    return {"op": "assemble", "target": {"syms": [[n, k != "data"] for n, k in MODULE_SYMS.items()], "allowUndef": allow_undef, "triv": triv},
+    return {"op": "assemble", "target": {"syms": [[n, k != "data"] for n, k in module_syms(cfg).items()], "allowUndef": allow_undef, "triv": triv},
             "chunks": chunks}
 
 
@@ -621,7 +634,7 @@ def describe(tokens, cfg, real):
                     problems.append(("immediate-differs", cur, p))
             kind, indirect, target = token_kind(tok)
             items[cur].append(["insn", dec.size, kind, indirect, target])
-            if t in ("jmp", "b", "jcc", "call", "icallm", "ref"):
+            if t in ("jmp", "b", "jcc", "call", "icallm", "ijmpm", "ref"):
                 if fam in ("x64", "ia32"):
                     enc = dec.encoding
                     if enc.disp_size and not (t in ("jmp", "jcc", "call")):
@@ -675,7 +688,7 @@ def describe(tokens, cfg, real):
         if v.referent is not None:
             syms.append([k, node(v.referent), bool(v.at_end)])
     for name, sym in real["modsyms"].items():
-        if MODULE_SYMS[name] != "data":
+        if module_syms(cfg)[name] != "data":
             syms.append([name, node(sym.referent), False])
     req = {"op": "asm_check", "triv": real.get("triv", False), "edges": edges, "syms": syms,
            "sects": [{"name": s.name, "exec": gtirb.Section.Flag.Executable in s.flags, "dataLen": len(s.data),
@@ -731,7 +744,7 @@ def check_operands(real, operands, cfg):
         elif fam in ("x64", "ia32") and c["ff"] == "ELF" and "DYN" in c["bt"] and tok["t"] in ("jmp", "jcc", "call") \
                 and isinstance(e, gtirb.SymAddrConst) and isinstance(e.symbol.referent, gtirb.ProxyBlock):
             want = {"PLT"}
-        if attrs != want and not (tok["t"] == "icallm"):
+        if attrs != want and not (tok["t"] in ("icallm", "ijmpm")):
             issues.append(("operand-attributes:%s-want-%s" % (sorted(attrs), sorted(want)), o))
     for name, s in res.sections.items():
         for off in s.symbolic_expressions:
